@@ -39,6 +39,58 @@ fn usage() -> ! {
     std::process::exit(2)
 }
 
+/// CPU seconds (user + system, all threads) this process has used, from /proc/self/stat.
+fn process_cpu_seconds() -> Option<f64> {
+    let s = std::fs::read_to_string("/proc/self/stat").ok()?;
+    let rest = &s[s.rfind(')')? + 2..];
+    let f: Vec<&str> = rest.split(' ').collect();
+    // fields after the command: state(0) ... utime is the 14th field overall = index 11 here, stime index 12
+    let ticks: f64 = f.get(11)?.parse::<f64>().ok()? + f.get(12)?.parse::<f64>().ok()?;
+    Some(ticks / 100.0)
+}
+
+/// Bounded progress, measured in CPU time rather than wall-clock time: if one announced case keeps this process busy
+/// for more than the limit (default 600 CPU-seconds; normal cases take micro- to milliseconds) without the next case
+/// being announced, the case does not terminate in any practical sense. The monitor reports it as a violation of its
+/// own (`hang:cpu-time:<stream>`), and leaves the process with exit code 98 so that the driver resumes after that
+/// case. A process that is merely descheduled on a loaded machine burns no CPU and is never reported.
+fn spawn_cpu_monitor(shard: u64) {
+    if cfg!(miri) {
+        return;
+    }
+    let limit: f64 = std::env::var("HSV_CASE_CPU_LIMIT").ok().and_then(|v| v.parse().ok()).unwrap_or(600.0);
+    std::thread::Builder::new()
+        .name("cpu-monitor".into())
+        .spawn(move || {
+            use std::sync::atomic::Ordering;
+            let mut last = u64::MAX;
+            let mut cpu0 = process_cpu_seconds().unwrap_or(0.0);
+            loop {
+                std::thread::sleep(std::time::Duration::from_millis(500));
+                let seq = ctx::CASE_SEQ.load(Ordering::Relaxed);
+                let Some(cpu) = process_cpu_seconds() else { return };
+                if seq != last {
+                    last = seq;
+                    cpu0 = cpu;
+                    continue;
+                }
+                let spent = cpu - cpu0;
+                ctx::MAX_CASE_CPU_MS.fetch_max((spent * 1000.0) as u64, Ordering::Relaxed);
+                if spent > limit {
+                    let (stream, index) = ctx::CASE_NOW.lock().map(|c| c.clone()).unwrap_or_default();
+                    let line = serde_json::json!({"sig": format!("hang:cpu-time:{stream}"),
+                        "what": format!("case {stream}:{index} kept the worker busy for more than {limit} CPU-seconds without finishing (cases normally take milliseconds): it does not terminate"),
+                        "stream": stream, "index": index, "shard": shard, "witness": {"cpu_seconds": spent}});
+                    use std::io::Write;
+                    println!("V {}", line);
+                    let _ = std::io::stdout().flush();
+                    std::process::exit(98);
+                }
+            }
+        })
+        .ok();
+}
+
 fn main() {
     let args: Vec<String> = std::env::args().collect();
     if args.len() < 2 {
@@ -114,6 +166,7 @@ fn main() {
         }
     }
     util::install_panic_hook();
+    spawn_cpu_monitor(shard);
     match prop.as_str() {
         "C01" => mon_c01::run(&mut ctx),
         "C02" => mon_c02::run(&mut ctx),
